@@ -38,8 +38,21 @@ def _initial_state_ok(repo: Repo, f: FuncInfo, call: ast.Call, p, problem_param:
     init = L.arg_of(call, st, "is_init")
     ok_p = preds is not None and (f"param:{problem_param}", "attr:initial_state_predicates") in p.trace(preds)
     ok_f = flu is not None and (f"param:{problem_param}", "attr:initial_state_fluents") in p.trace(flu)
-    ok_i = isinstance(init, ast.Constant) and init.value is True
+    ok_i = _is_const(p, init, True)
     return ok_p, ok_f, ok_i
+
+
+def _is_const(p, e, value) -> bool:
+    """the expression is the constant `value`, written in place or through locals / helper parameters bound to it"""
+    if e is None:
+        return False
+    if isinstance(e, ast.Constant):
+        return e.value is value
+    try:
+        tr = p.trace(e)
+    except (KeyError, RecursionError):
+        return False
+    return bool(tr) and all(x == (f"const:{value!r}",) for x in tr)
 
 
 def _is_last_next_state(pth, step_fn: str) -> bool:
@@ -336,7 +349,7 @@ def rule_except(repo: Repo) -> RuleResult:
         pr, fl, ii = L.arg_of(handler_state, st, "predicates"), L.arg_of(handler_state, st, "fluents"), L.arg_of(handler_state, st, "is_init")
         okp = pr is not None and any(x[0] == "param:previous_state" and "attr:state_predicates" in x for x in p.trace(pr))
         okf = fl is not None and any(x[0] == "param:previous_state" and "attr:state_fluents" in x for x in p.trace(fl))
-        oki = ii is None or (isinstance(ii, ast.Constant) and ii.value is False)
+        oki = ii is None or _is_const(p, ii, False)
         if okp and okf and oki:
             r.ok({"handler_successor": "State(pre-state facts, pre-state fluents, is_init=False)"})
         else:
